@@ -16,8 +16,8 @@ import copy
 import itertools
 import pickle
 
-from ..copy_machines import (CopyListener, CopyListenerAsync, CopyModel, CopyModelAsync,
-                             built_for)
+from ..copy_machines import (CopyListener, CopyListenerAsync, CopyListenerEq, CopyModel,
+                             CopyModelAsync, built_for)
 from ..drive import Pair
 from ..env import CUR, Env
 from ..par import BlockResult, Hang, deadline, run_blocks
@@ -37,6 +37,7 @@ CONFIGS = [
     ("plain+async-model", "plain", Cfg("async", True, True, "facade"), "state", None, True, False),
     ("listener-only-action", "lis", Cfg("sync", True, False, "direct"), "state", None, False, False),
     ("listener-only-action-async", "lis", Cfg("async", True, False, "facade"), "state", None, False, True),
+    ("two-equal-listeners", "sync", Cfg("sync", True, False, "direct"), "state", None, False, "eq2"),
 ]
 VALUES = ("s0", 0, "")
 MECHS = ("deepcopy", "pickle", "deepcopy-of-deepcopy", "pickle-of-deepcopy")
@@ -56,9 +57,21 @@ def make_pair(ci):
     (label, kind, cfg, field, svi, masync, lasync) = CONFIGS[ci]
     built = built_for(kind)
     model = (CopyModelAsync if masync else CopyModel)(field)
-    listener = (CopyListenerAsync if lasync else CopyListener)()
+    if lasync == "eq2":
+        # two distinct listeners that compare equal: both are attached, both must be cloned
+        import dataclasses
+        from ..spec import Built
+        l1, l2 = CopyListenerEq(), CopyListenerEq()
+        l2._prov = "L2"
+        m = built.m
+        m = dataclasses.replace(m, listeners=("L1", "L2"), provided=m.provided + tuple(
+            ("L2", n, f) for (p_, n, f) in m.provided if p_ == "L1"))
+        built = Built(m, built.cls, built.tr_objs, {}, None, {})
+        listeners = [l1, l2]
+    else:
+        listeners = [(CopyListenerAsync if lasync else CopyListener)()]
     sv = None if svi is None else VALUES[svi]
-    p = Pair(built, cfg, start_value=sv, model=model, state_field=field, listeners=[listener])
+    p = Pair(built, cfg, start_value=sv, model=model, state_field=field, listeners=listeners)
     return p
 
 
